@@ -561,7 +561,7 @@ MUTATING_TRAIT_METHODS = {"set_default_value", "set_validate", "delegate",
                           "property", "clone"}
 
 
-@rule("C10.clone-before-mutate", ["C10"],
+@rule("C10.clone-before-mutate", ["C10", "C08"],
       "a CTrait taken from a shared (class-level) dictionary is cloned before "
       "its notifiers are extended")
 def clone_before_mutate(ctx, res):
@@ -569,14 +569,24 @@ def clone_before_mutate(ctx, res):
     mod = repo.module(HT)
     n = 0
     for qual, fn in mod.functions.items():
-        calls = [c for c in ast.walk(fn) if isinstance(c, ast.Call)
-                 and norm(c.func) == "_add_notifiers" and c.args]
-        for c in calls:
+        calls = []
+        for c in ast.walk(fn):
+            if not isinstance(c, ast.Call):
+                continue
             # _add_notifiers(X._notifiers(True), handlers)
-            a0 = c.args[0]
+            if norm(c.func) == "_add_notifiers" and c.args:
+                calls.append((c, c.args[0]))
+            # X._notifiers(True).extend(...) / .append(...) / .insert(...)
+            elif isinstance(c.func, ast.Attribute) \
+                    and c.func.attr in ("extend", "append", "insert") \
+                    and isinstance(c.func.value, ast.Call):
+                calls.append((c, c.func.value))
+        for c, a0 in calls:
             if not (isinstance(a0, ast.Call) and isinstance(a0.func,
                                                             ast.Attribute)
                     and a0.func.attr == "_notifiers"):
+                continue
+            if not isinstance(a0.func.value, ast.Name):
                 continue
             tv = norm(a0.func.value)
             n += 1
@@ -643,3 +653,95 @@ def _dominated_by_clone(fn, call, var):
 
 class _DummyMod:
     rel = HT
+
+
+# ---------------------------------------------------------------------------
+# C10.tuple-default
+
+def _universal_over_children(fn, test):
+    """Is the guard a statement about *all* children?  Accepts all(...) over
+    a collection and loop-accumulated conjunctions; rejects a flag that each
+    loop iteration overwrites."""
+    if isinstance(test, ast.Call) and norm(test.func) == "all":
+        return True, "all(...)"
+    if not isinstance(test, ast.Name):
+        return None, norm(test)
+    name = test.id
+    defs = [a for a in ast.walk(fn) if isinstance(a, (ast.Assign, ast.AugAssign))
+            and any(isinstance(t, ast.Name) and t.id == name
+                    for t in (a.targets if isinstance(a, ast.Assign)
+                              else [a.target]))]
+    par = {}
+    for p in ast.walk(fn):
+        for c in ast.iter_child_nodes(p):
+            par[id(c)] = p
+
+    def in_loop(node):
+        x = par.get(id(node))
+        while x is not None:
+            if isinstance(x, (ast.For, ast.While)):
+                return x
+            x = par.get(id(x))
+        return None
+    verdict = True
+    why = []
+    for a in defs:
+        loop = in_loop(a)
+        if isinstance(a, ast.AugAssign):
+            why.append("augmented")
+            continue
+        v = a.value
+        if loop is None:
+            if isinstance(v, ast.Call) and norm(v.func) == "all":
+                why.append("all(...)")
+            continue
+        mentions_self = any(isinstance(x, ast.Name) and x.id == name
+                            for x in ast.walk(v))
+        const_false = isinstance(v, ast.Constant) and v.value is False
+        if mentions_self or const_false:
+            why.append("accumulated")
+        else:
+            verdict = False
+            why.append(f"overwritten in loop at line {a.lineno}")
+    return verdict, ", ".join(why)
+
+
+@rule("C10.tuple-default", ["C10"],
+      "a Tuple uses one shared constant default only if *every* member has a "
+      "constant default; otherwise the default is computed per instance")
+def tuple_default(ctx, res):
+    repo = get_pyrepo(ctx)
+    T = "traits/trait_types.py"
+    mod = repo.module(T)
+    fn = repo.func(T, "BaseTuple.__init__")
+    guards = []
+    for i in ast.walk(fn):
+        if isinstance(i, ast.If) and i.orelse:
+            body_txt = " ".join(norm(s) for s in i.body)
+            else_txt = " ".join(norm(s) for s in i.orelse)
+            if "tuple(" in body_txt and "DefaultValue.callable" in else_txt:
+                guards.append(i)
+    if len(guards) != 1:
+        raise AnalysisError("BaseTuple.__init__: constant/dynamic default "
+                            "decision not found")
+    gd = guards[0]
+    ok, why = _universal_over_children(fn, gd.test)
+    res.instance("BaseTuple.__init__:default-decision", mod.loc(gd),
+                 guard=norm(gd.test), form=why)
+    if ok is None:
+        raise AnalysisError(f"BaseTuple.__init__: guard `{why}` not "
+                            f"recognised")
+    res.oblige(ok, "BaseTuple.__init__:universal", mod.loc(gd),
+               f"the constant-default decision `{norm(gd.test)}` is {why}: "
+               f"it no longer depends on every member, so a Tuple with a "
+               f"container member can get one default tuple (holding the "
+               f"member's template container) shared by all instances")
+    # the dynamic default asks each member for a per-object default
+    dyn = repo.func(T, "BaseTuple._get_default_value")
+    res.oblige(any(isinstance(c, ast.Call) and isinstance(c.func, ast.Attribute)
+                   and c.func.attr == "default_value_for"
+                   for c in ast.walk(dyn)),
+               "BaseTuple._get_default_value", mod.loc(dyn),
+               "the dynamic Tuple default does not build per-object member "
+               "defaults (default_value_for)")
+    res.floor(1)
